@@ -36,7 +36,7 @@ Definition sstep (m : smap) (now : Z) (o : op) : smap * out :=
   | OGet k =>
       match m_get m k with
       | None => (m, OutGet None)
-      | Some (v, d) => if expired now d then (m_del k m, OutGet None) else (m, OutGet (Some (v, d)))
+      | Some (v, d) => if expired now d then (m_del k m, OutGet None) else (m, OutGet (Some (v, shown d)))
       end
   | OCount => (m, OutCount (length m))
   | OClear => ([], OutUnit)
@@ -84,7 +84,7 @@ End Spec.
 (* ---------- hypotheses on operation lists ---------- *)
 Definition op_wf (o : op) : Prop :=
   match o with
-  | ORestore data | OLoad data => NoDup (map fst data) /\ Forall (fun ke => 0 <= snd (snd ke)) data
+  | ORestore data | OLoad data => NoDup (map fst data)
   | _ => True
   end.
 Definition ops_wf (tops : list (Z * op)) : Prop := Forall (fun x => op_wf (snd x)) tops.
